@@ -124,12 +124,20 @@ the SRT, WebVTT, SSA and STL reader loops). With the tag off `verifEmit` is an e
 
 %s
 
-67 changes were written by sub-agents: 39 "plausible refactoring" seeds in four batches and 28 mutation-testing style
-changes (four per source file). 66 break their property and all 66 are caught by the quick tier of the property they
-target; one (C06-c) turned out to be an equivalent change and is, correctly, not flagged. Sixteen were missed or barely
-caught at first (C02-a, C04-a, C06-a, C13-b, C20-a, C02-b, C04-b, C05-b, C19-b, C20-b, M2-2, M2-4, M4-2, M4-3, M4-4;
-C13-b by one event only); in each case the *generator* was widened (never the oracle), as the tables say, and all
-earlier changes were re-run afterwards (`seedtool.sh runcopy`, a scratch worktree selected through `VERIF_REPO`).
+135 changes were written by sub-agents that saw only property texts and a scratch worktree: 39 "plausible refactoring"
+seeds in four batches and 96 mutation-testing style changes in three batches (four per source file or area, including
+the command-line tool). 133 of them break a property as stated and all 133 are caught by the quick tier (the CLI
+mutants by C07, which drives the tool). Two are not flagged, and should not be: C06-c is an equivalent change (it
+only merges two runs with identical attributes) and P6-2 changes the character-set designation through X/28
+packets, which the statement of C06 does not cover and the specification does not model. 39 of the 133 were missed or
+barely caught when first run; every miss was answered by widening a *generator* or the *model* (never by loosening an
+oracle): new families (WebVTT N and K, TTML L and A, SSA I, teletext I and M), new rendering choices (per-row box
+patterns, comment-like and non-dialogue lines in SubStation files, inline timestamps without hours, text-like bytes in
+enhancement packets), new value classes (33-bit MPEG-TS time stamps, tick counts beyond 32 bits, full-width GSI
+fields, literal entity sequences, one-character runs, two-line text atoms, style names around "Default"), new
+observations (zero-valued reader options, Open with options, definitions stored under foreign map keys) and a
+systematic pass of every operation kind over 16 goroutines for C20. After each round all earlier changes were
+re-run (`seedtool.sh runcopy`, a scratch worktree selected through `VERIF_REPO`); the tables list the final state.
 
 ### 10.7 Binding self-test
 
